@@ -1,6 +1,7 @@
 import Props.SchedTie
 import TaskModel.Sched.WaiterLemmas
 import Props.C14
+import TaskModel.Sched.MonVal
 /-!
 # C02 — Commands of a task run one at a time, in order; task calls are synchronous
 
@@ -247,5 +248,30 @@ example : (replay progO { parallel := true } (init 2) (runO.take 20 ++ [⟨3, .w
 -- the monitor accepts every activation of the run, and is not trivially true
 example : seqMonAll run1 = true := by decide
 example : (seqMon.run seqMon.init (evsOf 2 (run1.take 24 ++ [⟨2, .cmdStart 2 none false⟩]))).isSome = false := by decide
+
+/-! ## the callee sees what the reference passed
+
+`Sched.MonVal`: every reference carries a `Pass` for the variable the generated programs hand around;
+`valsOf` runs the acceptor's own `step` and records, at every `enter`, the value the new activation is
+called with; the driver compares it with what the activation's commands printed (verdict `C02v`). -/
+
+/-- **C02 (call variables, executor side).** A dependency or `task:` entry that passes a literal hands the
+callee exactly that literal; one that passes nothing leaves the variable unset; one that hands on the
+referrer's own value hands on what the referrer was called with (the empty string if it was not set). -/
+theorem C02_callee_sees_passed (Ps : Passes) (c : Config) (vals : List (Nat × Nat)) (p i : Nat) (d : Bool) (px : Act)
+    (hp : c.act? p = some px) :
+    (∀ n, cmdPass Ps px.task i = .lit n → expectedVal Ps c vals (.call p i d) = valNum n) ∧
+    (cmdPass Ps px.task i = .none → expectedVal Ps c vals (.call p i d) = valUnset) ∧
+    (∀ v, cmdPass Ps px.task i = .own → vals.lookup p = some v → v ≠ valUnset → expectedVal Ps c vals (.call p i d) = v) ∧
+    (∀ n, depPass Ps px.task i = .lit n → expectedVal Ps c vals (.dep p i) = valNum n) := by
+  refine ⟨?_, ?_, ?_, ?_⟩
+  · intro n h; simp [expectedVal, hp, h, passVal]
+  · intro h; simp [expectedVal, hp, h, passVal]
+  · intro v h hv hne; simp [expectedVal, hp, h, passVal, hv, hne]
+  · intro n h; simp [expectedVal, hp, h, passVal]
+
+/-- a call given on the command line is handed nothing -/
+theorem C02_top_gets_nothing (Ps : Passes) (c : Config) (vals : List (Nat × Nat)) (k : Nat) :
+    expectedVal Ps c vals (.top k) = valUnset := rfl
 
 end Props.C02
